@@ -27,6 +27,7 @@ type heightMon struct {
 	crashLost  bool         // a crash happened after the draw while nothing of it was on disk
 	lastServed map[int]bool // inner answer of the pending getter call (per height: one session)
 	enters     int
+	answered   int // getter answers received since the draw
 }
 
 type monitor struct {
@@ -141,11 +142,20 @@ func (m *monitor) onEnter(h *harness, e event) {
 		// coordinates outside the first draw: the set was drawn again
 		what := fmt.Sprintf("height %d (K=%d, area=%d, cascade=%v): first draw %v, delivered so far %v, now requested %v",
 			e.height, h.cfg.K, h.cfg.area(), h.cfg.Cascade, keys(st.firstDraw), keys(st.seen), codes)
+		concurrent := false
+		for c := 1; c <= nCallers; c++ {
+			if c != e.caller && h.call[c].phase == "inGetter" && h.call[c].height == e.height {
+				concurrent = true
+			}
+		}
 		switch {
+		case concurrent:
+			m.violate("C03/redraw/concurrent-session-drew-its-own-coordinates",
+				"a second sampling session for the same block runs next to the first one and asks for its own coordinates: "+what)
 		case st.crashLost:
 			m.violate("C03/redraw/after-crash-unflushed-autobatch",
 				"after a crash (new instance over the underlying datastore, no Close) the sampling result that sat in the autobatch buffer is gone and new coordinates are drawn: "+what)
-		case st.allNothing:
+		case st.allNothing && st.answered > 0:
 			m.violate("C03/redraw/getter-returned-nothing",
 				"a retry after the getter returned nothing (len 0, e.g. any error through CascadeGetter) asks for newly drawn coordinates: "+what)
 		default:
@@ -170,7 +180,7 @@ func (m *monitor) onEnter(h *harness, e event) {
 }
 
 func (m *monitor) firstDraw(h *harness, st *heightMon, e event, cs map[int]bool) {
-	st.drawn, st.firstDraw, st.allNothing, st.crashLost = true, cs, true, false
+	st.drawn, st.firstDraw, st.allNothing, st.crashLost, st.answered = true, cs, true, false, 0
 	m.rep.Count("first_draws", 1)
 	if len(cs) != h.cfg.need() {
 		m.violate("C03/draw/wrong-sample-count",
@@ -223,6 +233,7 @@ func (m *monitor) onSeen(h *harness, e event) {
 	if !subset(ne, st.lastServed) {
 		h.broken = fmt.Sprintf("the wired getter delivered samples %v the stub did not serve (%v)", keys(ne), keys(st.lastServed))
 	}
+	st.answered++
 	if e.n > 0 {
 		st.allNothing = false
 	} else {
@@ -445,6 +456,38 @@ func (h *harness) seededStep(r *rand.Rand) step {
 	return cs[0].s
 }
 
+// directed: three calls for one block with the middle one cancelled while it waits.
+func directed() []script {
+	call := func(c, h int) step { return step{A: "call", C: c, H: h} }
+	cancel := func(c int) step { return step{A: "cancel", C: c} }
+	ret := func(c int, served []int, kind string) step { return step{A: "ret", C: c, Served: served, Kind: kind} }
+	nothing := func(c int) step { return step{A: "ret", C: c, Len0: true, Kind: "error"} }
+	var out []script
+	add := func(name string, st ...step) {
+		out = append(out, script{Name: "directed-" + name, Class: "directed", Steps: st})
+	}
+	for _, h := range []int{1, 2} {
+		n := fmt.Sprintf("h%d-", h)
+		// C arrives after B gave up
+		add(n+"late-partial", call(1, h), call(2, h), cancel(2), call(3, h), ret(1, []int{0}, "none"), ret(3, []int{0, 1, 2, 3, 4}, "none"))
+		add(n+"late-nothing", call(1, h), call(2, h), cancel(2), call(3, h), nothing(1), ret(3, []int{0}, "none"))
+		add(n+"late-c-first", call(1, h), call(2, h), cancel(2), call(3, h), ret(3, []int{0, 1}, "none"), ret(1, []int{2, 3, 4}, "error"))
+		// C queues up before B gives up
+		add(n+"early-partial", call(1, h), call(2, h), call(3, h), cancel(2), ret(1, []int{1}, "none"), ret(3, []int{0, 1, 2, 3, 4}, "none"))
+		add(n+"early-nothing", call(1, h), call(2, h), call(3, h), cancel(2), nothing(1), ret(3, []int{0, 1, 2, 3, 4}, "deadline"))
+		// the waiter comes back itself
+		add(n+"waiter-returns", call(1, h), call(2, h), cancel(2), call(2, h), ret(1, []int{0, 1}, "cancelled"), ret(2, []int{0, 1, 2, 3, 4}, "none"))
+		// the holder is on its second attempt (a stored result exists)
+		add(n+"second-attempt", call(1, h), ret(1, []int{0}, "none"), call(1, h), call(2, h), cancel(2), call(3, h),
+			ret(1, []int{0}, "none"), ret(3, []int{0, 1, 2, 3, 4}, "none"))
+	}
+	// two busy heights, the waiter of one of them gives up
+	add("two-heights", call(1, 1), call(2, 2), call(3, 1), cancel(3), call(3, 1), ret(2, []int{0, 1, 2, 3, 4}, "none"),
+		call(2, 1), ret(1, []int{0}, "none"))
+	add("two-heights-b", call(1, 1), call(2, 2), call(3, 2), cancel(3), call(3, 2), nothing(2), ret(1, []int{0, 1, 2, 3, 4}, "none"))
+	return out
+}
+
 // ---------------------------------------------------------------------------- scenario runner
 
 type traceFile struct {
@@ -641,6 +684,15 @@ func TestDriver(t *testing.T) {
 		default:
 			r.run(cfgs[i%len(cfgs)], sc, 0)
 			i++
+		}
+	}
+	// (1b) directed family: A inside the getter, B waits behind it and gives up (cancelled), C
+	// arrives for the same block -- before or after B gives up, on one or on two busy heights,
+	// raw and cascade wiring, small and large draws
+	for _, sc := range directed() {
+		for _, c := range []config{{OdsW: 2, K: 5}, {OdsW: 2, K: 5, Cascade: true}, {OdsW: 1, K: 2}, {OdsW: 1, K: 2, Cascade: true},
+			{OdsW: 2, K: 2, Cascade: true}, {OdsW: 1, K: 5}} {
+			r.run(c, sc, 0)
 		}
 	}
 	// (2) seeded random schedules on the real state
